@@ -139,8 +139,25 @@ def register(claim, na):
           "whitelist, run the narrow phase on every candidate, mark both frames / return at the first hit (R-WHITELIST); "
           "transitively the AABB tree invariants and R-COHERENCE. Does not decide equality with an all-pairs oracle on concrete "
           "robots, URDF parsing, or robots with several colliders per frame.", "DESIGN.md §4 C06")
-    for p in ["C10", "C11"]:
-        na(p, PENDING)
+    claim("C10", "by-construction sign lattice + role-flow dataflow over return tuples (E6) + loop classification (E4) + array-layout "
+                 "(E1), frame (E2) and degree (E3) abstract interpretation",
+          "Decides structural necessary conditions: the 34 exports resolve (R-API); every returned distance is >= 0 by "
+          "construction with the default flags (R-NONNEG); composite functions take distance and points from ONE sub-query and "
+          "return the points in the order of the primitives, with callee results mapped through the argument groups of each call "
+          "(R-TRIPLE, R-ROLE, R-ROLEAGREE) - i.e. '|p1-p2| = d' and 'points lie on the respective primitives' hold RELATIVE TO "
+          "THE CALLEES; every loop of the package is CAP/STRUCT (R-HANG: 'never hang' is fully decided for this package); calls "
+          "into explicitly typed helpers are accepted (R-EAGER); local-frame evaluation is frame consistent and results are "
+          "world-frame points (R-FRAME); dimensional homogeneity (R-DEGREE). Does not decide membership of arithmetically "
+          "constructed leaf points within 1e-9 L, NaN-freedom, or 'never raises' beyond signature conformance.", "DESIGN.md §4 C10")
+    claim("C11", "feature-enumeration completeness rules + convexity-table rule for the clamp idiom + role-flow (E6) + degree "
+                 "inference (E3)",
+          "Decides structural necessary conditions of optimality: candidate enumerations are complete (3 triangle edges via the "
+          "i0/i1 wrap-around, 2x2 rectangle edges, 2x3 box faces, all rectangle vertices) and are cut short only under "
+          "dist <= epsilon (R-FEATURES); the 'infinite line, then clamp and re-query the end point' idiom is used only against "
+          "convex primitives (R-CLAMPCONVEX: known finding line_segment_to_circle); best-of blocks adopt distance and points "
+          "together (R-TRIPLE); closed forms are dimensionally homogeneous (R-DEGREE: exposed the line_to_circle transcription "
+          "error, fixed). Does not decide optimality itself, nor the 20-round alternating projection of disk_to_disk.",
+          "DESIGN.md §4 C11")
     na("C17", "volumes, positivity, partition and potentials are numerical facts about generated vertex data over continuous "
               "parameters; the only static part (combinatorics of literal tables) is too small a share of the statement to "
               "claim the property through it (DESIGN.md §4 C17)")
